@@ -294,7 +294,10 @@ def type_or_id_filter(draw, objs):
     vs = type_v if which == "type" else id_v
     if op == "in":
         value = draw(st.lists(vs, min_size=0, max_size=4))
-        if draw(st.integers(0, 7)) == 0:
+        if draw(st.integers(0, 9)) == 0:
+            # a member that is no text at all: it equals no type and no id (as in a plain list scan); the other members still count
+            value.insert(draw(st.integers(0, len(value))), draw(st.sampled_from([5, None, True, 1.5])))
+        elif draw(st.integers(0, 7)) == 0:
             # a text as the right-hand side of `in` (substring test, as Python's `in`): the value itself, text around it, two joined
             v = draw(vs)
             value = draw(st.sampled_from([v, "x-" + v + "-kit", v + "," + draw(vs), v[:-1]]))
@@ -306,7 +309,12 @@ def type_or_id_filter(draw, objs):
             value = v
     else:
         value = draw(vs)
-        if op in ("=", "!=") and draw(st.integers(0, 7)) == 0:
+        if op in ("=", "!=") and draw(st.integers(0, 11)) == 0:
+            # texts that are no type / id of any object but would name something as a path: the parent directory, a detour through it
+            t = draw(any_type)
+            value = draw(st.sampled_from(["..", ".", t + "/../" + t, "./" + t, t + "/"])) if which == "type" else \
+                draw(st.sampled_from(["..", "../" + draw(id_v), t + "/../" + draw(id_v)]))
+        elif op in ("=", "!=") and draw(st.integers(0, 7)) == 0:
             # a list compared for (in)equality with a text: never equal, always unequal
             value = [value] + draw(st.lists(vs, max_size=1))
     return {"prop": which, "op": op, "value": value}
